@@ -28,6 +28,8 @@ def run(ctx):
     S.w_insertion_discipline(ctx)
     S.w3_shared_logic(ctx)
     S.w4_pack_iteration(ctx)
+    S.w5_replay_is_exhaustive(ctx)
+    ctx.floor("W5", 4)
     ctx.floor("W4", 1)
     from ..engines import labelkind as LK
     LK.k8_strategy_parent_pairing(ctx, modules=("specification_extrator", "rule_db.base"))
